@@ -75,6 +75,16 @@ class Source:
         self.consulted.add(rel)
         return self._text[rel]
 
+    def text_raw(self, rel):
+        """Text of the file as it is on disk (or in the overrides), without canonicalisation."""
+        if rel in self.overrides:
+            return self.overrides[rel]
+        p = os.path.join(self.root, rel)
+        if not os.path.isfile(p):
+            raise AnalysisError(f'anchor file missing: {rel}')
+        with open(p, encoding='utf-8') as f:
+            return f.read()
+
     def tree(self, rel):
         if rel not in self._tree:
             try:
